@@ -150,7 +150,7 @@ def dynamic_traces(ctx, tid0, desc, net, k, rng):
     lines, metas = [], []
     for q, ops in enumerate(seqs):
         refA = [rng.uniform(1e-5, 1e-3) for _ in range(nel)]
-        refA[hidx] = rng.choice([1.0, 1.0, 2.5e4, 0.37])     # number densities as well as fractional abundances: the code divides by the H entry
+        refA[hidx] = [1.0, 2.5e4, 0.37][q % 3]     # fractional abundances and number densities: the code divides by the H entry
         if refA[hidx] != 1.0:
             refA = [x * refA[hidx] if i != hidx else x for i, x in enumerate(refA)]
         ab = [rng.uniform(0.1, 5.0) for _ in range(neq)]
@@ -212,6 +212,9 @@ def main(ctx: Ctx) -> int:
     nstat = 25 if ctx.quick else 300
     ndyn = 2 if ctx.quick else 12
     special = [
+        # hydrogen is NOT the last element here (the element order follows the species order: least connected first)
+        ({"reactions": [(["C", "O"], ["CO"]), (["O", "N"], ["N", "O"]), (["CO", "He+"], ["C+", "O", "He"]), (["O", "C+"], ["C+", "O"]), (["H", "H"], ["H2"])],
+          "required": []}, "hydrogen-early"),
         ({"reactions": [(["GRAIN0", "e-"], ["GRAIN0-"]), (["H", "H"], ["H2"])], "required": []}, "grain"),
         ({"reactions": [(["H", "H"], ["H2"]), (["CO", "H"], ["CO", "H"])], "required": []}, "element-without-atom"),
     ]
@@ -227,7 +230,7 @@ def main(ctx: Ctx) -> int:
         except Exception as e:   # noqa
             ctx.violation(f"C16|Render|{type(e).__name__}|{kind}", f"{type(e).__name__}: {e}", {"desc": desc})
             continue
-        if k < ndyn or kind == "grain":
+        if k < ndyn or kind in ("grain", "hydrogen-early"):
             traces += dynamic_traces(ctx, len(traces) + 1, desc, net, k, rng)
     for i, t in enumerate(traces):
         t["tid"] = i + 1
